@@ -217,6 +217,11 @@ def run_traj(c, work):
                     if data is None or not (eq(data["x"], [[cast(v) for v in r] for r in fr["pos"]]) and eq(data["v"], [[cast(v) for v in r] for r in fr["vel"]])):
                         fails.append((f"trr:{'double' if double else 'single'}:{'little' if endian == '<' else 'big'}", f"TRR frame {t} decodes to other values"))
                         break
+                    bm = [[fr["box"][0], 0, 0], [0, fr["box"][1], 0], [0, 0, fr["box"][2]]] if len(fr["box"]) == 3 else \
+                        [[fr["box"][0], fr["box"][3], fr["box"][4]], [fr["box"][5], fr["box"][1], fr["box"][6]], [fr["box"][7], fr["box"][8], fr["box"][2]]]
+                    if not eq(data["box"], [[cast(v) for v in r] for r in bm]):
+                        fails.append(("trr:box", f"TRR frame {t}: the box matrix decodes to other values ({'triclinic' if c['triclinic'] else 'orthogonal'})"))
+                        break
                     if hdr["step"] != t or hdr["natoms"] != n:
                         fails.append(("trr:header", f"TRR header of frame {t} decodes to step {hdr['step']} natoms {hdr['natoms']}"))
                         break
